@@ -942,6 +942,7 @@ def kf1_applies(tokens, resolved, env):
 # tables regenerated from the running code (T)
 # ---------------------------------------------------------------------------------------------
 def gen_tables(ctx):
+    common.source_tie('C09')  # small pure functions translated from the source and proved equal to the model (DESIGN 12.8)
     import sys
     from exactly_lib.definitions.test_case import reserved_words
     from exactly_lib.type_val_deps.types.list_ import defs as list_defs
